@@ -973,10 +973,49 @@ theorem cache_entry {o : Obj σ α} (sp : Space σ δ) (ms : Ms σ α) (dstate :
       · simp [nbhIncs, List.getD_eq_getElem?_getD, hi']
       · simp [nbhCosts, nbhIncs, List.getD_eq_getElem?_getD, hi']
 
-/-- the pieces of `growInsert`, named. -/
-theorem growInsert_spec (o : Obj σ α) (sp : Space σ δ) (s : St σ α δ) (nmotion : Nat) (nm : Motion σ α) (dstate : σ) :
+/-- what the theorems need to know about the insertion stage, whichever choose-parent loop produced it: the new motion
+hangs under a motion `par` of the old tree with `incCost = motionCost(par, new)` and `cost = combine(par.cost, incCost)`, the
+loop changed nothing but the oracle pools / logs, the neighbourhood consists of old motions, and `incs[i]` is
+`motionCost(nbh[i], new)` for every neighbour. -/
+structure GrowOK (o : Obj σ α) (s : St σ α δ) (dstate : σ) (g : Grown σ α δ) : Prop where
+  ex : ∃ (s1 : St σ α δ) (par : Nat) (pm : Motion σ α) (cost inc : α) (t : Bool),
+    g.st = insertMotion s1 dstate par cost inc t ∧ g.new = s1.motions.size ∧ s1.motions = s.motions ∧ s1.fuelOut = s.fuelOut ∧
+    s1.goalMotions = s.goalMotions ∧ s.motions[par]? = some pm ∧ inc = o.motionCost pm.state dstate ∧ cost = o.combine pm.cost inc
+  lt : ∀ p ∈ g.nbhP, p.2 < s.motions.size
+  incs : ∀ p ∈ g.nbhP, ∀ nb0 : Motion σ α, s.motions[p.2]? = some nb0 → g.incs.getD p.1 o.identity = o.motionCost nb0.state dstate
+
+theorem checkMotion_frame (s : St σ α δ) (a b : σ) :
+    (s.checkMotion a b).2.motions = s.motions ∧ (s.checkMotion a b).2.fuelOut = s.fuelOut ∧
+    (s.checkMotion a b).2.goalMotions = s.goalMotions ∧ (s.checkMotion a b).2.staleInc = s.staleInc := by
+  unfold St.checkMotion
+  cases s.answers <;> exact ⟨rfl, rfl, rfl, rfl⟩
+
+theorem chooseParent_frame (sp : Space σ δ) (ms : Ms σ α) (nmotion : Nat) (x : σ)
+    (cands : List (Nat × Nat)) (s : St σ α δ) (valid : List (Nat × Int)) :
+    (chooseParent sp ms nmotion x cands s valid).2.2.goalMotions = s.goalMotions ∧
+    (chooseParent sp ms nmotion x cands s valid).2.2.staleInc = s.staleInc := by
+  induction cands generalizing s valid with
+  | nil => exact ⟨rfl, rfl⟩
+  | cons c rest ih =>
+    obtain ⟨i, mi⟩ := c
+    unfold chooseParent
+    split
+    · exact ⟨rfl, rfl⟩
+    · split
+      · exact ih _ _
+      · split
+        · simp only []
+          split
+          · exact ⟨(checkMotion_frame _ _ _).2.2.1, (checkMotion_frame _ _ _).2.2.2⟩
+          · have h1 := checkMotion_frame s (‹Motion σ α›).state x
+            have h2 := ih (s.checkMotion (‹Motion σ α›).state x).2 ((i, -1) :: valid)
+            exact ⟨h2.1.trans h1.2.2.1, h2.2.trans h1.2.2.2⟩
+        · exact ih _ _
+
+/-- the pieces of `growInsertDelayed`, named. -/
+theorem growInsertDelayed_spec (o : Obj σ α) (sp : Space σ δ) (s : St σ α δ) (nmotion : Nat) (nm : Motion σ α) (dstate : σ) :
     ∃ cands t,
-      growInsert o sp s nmotion nm dstate =
+      growInsertDelayed o sp s nmotion nm dstate =
         { st := insertMotion (chooseParent sp s.motions nmotion dstate cands s []).2.2 dstate
             (pickVal (chooseParent sp s.motions nmotion dstate cands s []).1
               (nearestK sp s.motions dstate (sp.kNearest s.motions.size)).1 nmotion)
@@ -992,8 +1031,202 @@ theorem growInsert_spec (o : Obj σ α) (sp : Space σ δ) (s : St σ α δ) (nm
           incs := nbhIncs o s.motions dstate (nearestK sp s.motions dstate (sp.kNearest s.motions.size)).1,
           nbhP := (List.range (nearestK sp s.motions dstate (sp.kNearest s.motions.size)).1.length).zip
             (nearestK sp s.motions dstate (sp.kNearest s.motions.size)).1 } := by
-  unfold growInsert
+  unfold growInsertDelayed
   exact ⟨_, _, rfl⟩
+
+/-- the default branch (delayed collision checking) meets the specification, unconditionally. -/
+theorem growInsertDelayed_ok {o : Obj σ α} (sp : Space σ δ) (s : St σ α δ) (nmotion : Nat) (nm : Motion σ α) (dstate : σ)
+    (hnm : s.motions[nmotion]? = some nm) : GrowOK o s dstate (growInsertDelayed o sp s nmotion nm dstate) := by
+  obtain ⟨cands, t, hspec⟩ := growInsertDelayed_spec o sp s nmotion nm dstate
+  have hcp := chooseParent_motions sp s.motions nmotion dstate cands s []
+  have hcf := chooseParent_frame sp s.motions nmotion dstate cands s []
+  have hlt := nearestK_lt sp s.motions dstate (sp.kNearest s.motions.size)
+  have hce := fun oi => cache_entry (o := o) sp s.motions dstate (sp.kNearest s.motions.size) nmotion nm hnm oi
+  generalize nearestK sp s.motions dstate (sp.kNearest s.motions.size) = nk at hspec hlt hce
+  generalize chooseParent sp s.motions nmotion dstate cands s [] = cp at hspec hcp hcf
+  obtain ⟨pm, hpm, hinc, hcost⟩ := hce cp.1
+  rw [hspec]
+  refine ⟨⟨cp.2.2, _, pm, _, _, t, rfl, rfl, hcp.1, hcp.2, hcf.1, hpm, hinc, by rw [hinc]; exact hcost⟩, ?_, ?_⟩
+  · intro p hp
+    exact hlt p.2 (List.of_mem_zip hp).2
+  · intro p hp nb0 hnb0
+    show (nbhIncs o s.motions dstate nk.1).getD p.1 o.identity = _
+    unfold nbhIncs
+    rw [getD_map_zip_range _ _ _ p hp, hnb0]
+
+/-! ### the classic choose-parent loop (`delayCC_ = false`) -/
+
+theorem classicStep_frame (o : Obj σ α) (sp : Space σ δ) (ms : Ms σ α) (nmotion : Nat) (x : σ) (a : Classic σ α δ) (p : Nat × Nat) :
+    (classicStep o sp ms nmotion x a p).st.motions = a.st.motions ∧
+    (classicStep o sp ms nmotion x a p).st.fuelOut = a.st.fuelOut ∧
+    (classicStep o sp ms nmotion x a p).st.goalMotions = a.st.goalMotions ∧
+    (classicStep o sp ms nmotion x a p).st.staleInc = a.st.staleInc := by
+  unfold classicStep
+  split
+  · exact ⟨rfl, rfl, rfl, rfl⟩
+  · split
+    · exact ⟨rfl, rfl, rfl, rfl⟩
+    · rename_i m _
+      simp only []
+      split
+      · split
+        · have h := checkMotion_frame a.st m.state x
+          rcases hc : a.st.checkMotion m.state x with ⟨b, s'⟩
+          rw [hc] at h
+          cases b <;> exact h
+        · exact ⟨rfl, rfl, rfl, rfl⟩
+      · exact ⟨rfl, rfl, rfl, rfl⟩
+
+theorem foldl_classicStep_frame (o : Obj σ α) (sp : Space σ δ) (ms : Ms σ α) (nmotion : Nat) (x : σ) (l : List (Nat × Nat))
+    (a : Classic σ α δ) :
+    (l.foldl (classicStep o sp ms nmotion x) a).st.motions = a.st.motions ∧
+    (l.foldl (classicStep o sp ms nmotion x) a).st.fuelOut = a.st.fuelOut ∧
+    (l.foldl (classicStep o sp ms nmotion x) a).st.goalMotions = a.st.goalMotions ∧
+    (l.foldl (classicStep o sp ms nmotion x) a).st.staleInc = a.st.staleInc := by
+  induction l generalizing a with
+  | nil => exact ⟨rfl, rfl, rfl, rfl⟩
+  | cons p rest ih =>
+    simp only [List.foldl_cons]
+    have h1 := classicStep_frame o sp ms nmotion x a p
+    have h2 := ih (classicStep o sp ms nmotion x a p)
+    exact ⟨h2.1.trans h1.1, h2.2.1.trans h1.2.1, h2.2.2.1.trans h1.2.2.1, h2.2.2.2.trans h1.2.2.2⟩
+
+/-- the invariant of the classic loop after the neighbours `pre`: the current parent's cache entries are right, and —
+UNLESS the ghost `stale` was raised — so is every `incCosts[k]` written so far. -/
+structure ClassicInv (o : Obj σ α) (ms : Ms σ α) (x : σ) (a : Classic σ α δ) (pre : List (Nat × Nat)) : Prop where
+  par : ∃ pm, ms[a.par]? = some pm ∧ a.inc = o.motionCost pm.state x ∧ a.cost = o.combine pm.cost a.inc
+  len : a.incs.length = pre.length
+  incs : a.stale = false → ∀ (k : Nat) (q : Nat × Nat), pre[k]? = some q → ∀ nb0 : Motion σ α, ms[q.2]? = some nb0 →
+    a.incs.getD k o.identity = o.motionCost nb0.state x
+
+theorem classicInv_push {o : Obj σ α} {ms : Ms σ α} {x : σ} {a a' : Classic σ α δ} {pre : List (Nat × Nat)} {p : Nat × Nat} {v : α}
+    (hI : ClassicInv o ms x a pre) (hincs : a'.incs = a.incs ++ [v]) (hstale : a'.stale = false → a.stale = false)
+    (hv : a'.stale = false → ∀ nb0 : Motion σ α, ms[p.2]? = some nb0 → v = o.motionCost nb0.state x)
+    (hpar : ∃ pm, ms[a'.par]? = some pm ∧ a'.inc = o.motionCost pm.state x ∧ a'.cost = o.combine pm.cost a'.inc) :
+    ClassicInv o ms x a' (pre ++ [p]) := by
+  refine ⟨hpar, by rw [hincs]; simp [hI.len], ?_⟩
+  intro hs k q hq nb0 hnb0
+  have hs0 := hstale hs
+  by_cases hk : k < pre.length
+  · have hq' : pre[k]? = some q := by rw [List.getElem?_append_left hk] at hq; exact hq
+    have h := hI.incs hs0 k q hq' nb0 hnb0
+    rw [List.getD_eq_getElem?_getD] at h ⊢
+    rw [hincs, List.getElem?_append_left (by rw [hI.len]; exact hk)]
+    exact h
+  · have hk' : k = pre.length := by
+      by_contra hne
+      have : (pre ++ [p]).length ≤ k := by simp; omega
+      rw [List.getElem?_eq_none this] at hq
+      cases hq
+    subst hk'
+    have hq' : q = p := by
+      have : (pre ++ [p])[pre.length]? = some p := by simp
+      rw [this] at hq
+      exact (Option.some.inj hq).symm
+    subst hq'
+    rw [List.getD_eq_getElem?_getD, hincs]
+    have : (a.incs ++ [v])[pre.length]? = some v := by rw [← hI.len]; simp
+    rw [this]
+    exact hv hs nb0 hnb0
+
+theorem classicStep_inv {o : Obj σ α} (sp : Space σ δ) (ms : Ms σ α) (nmotion : Nat) (x : σ) (a : Classic σ α δ)
+    (pre : List (Nat × Nat)) (p : Nat × Nat) (hI : ClassicInv o ms x a pre) :
+    ClassicInv o ms x (classicStep o sp ms nmotion x a p) (pre ++ [p]) := by
+  unfold classicStep
+  split
+  · -- nbh[i] == nmotion: the CURRENT motion->incCost is cached; right iff nmotion is still the parent
+    rename_i hp
+    refine classicInv_push hI rfl ?_ ?_ hI.par
+    · intro h
+      simp only [Bool.or_eq_false_iff] at h
+      exact h.1
+    · intro h nb0 hnb0
+      simp only [Bool.or_eq_false_iff, decide_eq_false_iff_not, not_not] at h
+      obtain ⟨pm, hpm, hinc, _⟩ := hI.par
+      rw [h.2, ← hp, hnb0] at hpm
+      cases hpm
+      exact hinc
+  · split
+    · rename_i hnone
+      exact classicInv_push hI rfl (fun h => h) (fun _ nb0 hnb0 => by rw [hnone] at hnb0; cases hnb0) hI.par
+    · rename_i m hm
+      have hv : ∀ nb0 : Motion σ α, ms[p.2]? = some nb0 → o.motionCost m.state x = o.motionCost nb0.state x := by
+        intro nb0 hnb0; rw [hm] at hnb0; cases hnb0; rfl
+      simp only []
+      split
+      · split
+        · rcases hc : a.st.checkMotion m.state x with ⟨b, s'⟩
+          cases b
+          · exact classicInv_push hI rfl (fun h => h) (fun _ => hv) hI.par
+          · exact classicInv_push hI rfl (fun h => h) (fun _ => hv) ⟨m, hm, rfl, rfl⟩
+        · exact classicInv_push hI rfl (fun h => h) (fun _ => hv) hI.par
+      · exact classicInv_push hI rfl (fun h => h) (fun _ => hv) hI.par
+
+theorem foldl_classicStep_inv {o : Obj σ α} (sp : Space σ δ) (ms : Ms σ α) (nmotion : Nat) (x : σ) (l : List (Nat × Nat)) :
+    ∀ (a : Classic σ α δ) (pre : List (Nat × Nat)), ClassicInv o ms x a pre →
+      ClassicInv o ms x (l.foldl (classicStep o sp ms nmotion x) a) (pre ++ l) := by
+  induction l with
+  | nil => intro a pre h; simpa using h
+  | cons p rest ih =>
+    intro a pre h
+    simp only [List.foldl_cons]
+    have := ih _ _ (classicStep_inv sp ms nmotion x a pre p h)
+    simpa using this
+
+theorem zip_range_getElem? {β : Type} (nbh : List β) : ∀ p ∈ (List.range nbh.length).zip nbh, ((List.range nbh.length).zip nbh)[p.1]? = some p := by
+  intro p hp
+  obtain ⟨i, hi, hpi⟩ := List.mem_iff_getElem.mp hp
+  simp only [List.getElem_zip, List.getElem_range] at hpi
+  subst hpi
+  simp only [List.length_zip, List.length_range, min_self] at hi
+  simp [hi]
+
+/-- the classic branch meets the specification in every pass in which the ghost `staleInc` was not raised. -/
+theorem growInsertClassic_ok {o : Obj σ α} (sp : Space σ δ) (s : St σ α δ) (nmotion : Nat) (nm : Motion σ α) (dstate : σ)
+    (hnm : s.motions[nmotion]? = some nm) (hcl : (growInsertClassic o sp s nmotion nm dstate).st.staleInc = false) :
+    GrowOK o s dstate (growInsertClassic o sp s nmotion nm dstate) := by
+  have hlt := nearestK_lt sp s.motions dstate (sp.kNearest s.motions.size)
+  unfold growInsertClassic at hcl ⊢
+  simp only [] at hcl ⊢
+  generalize nearestK sp s.motions dstate (sp.kNearest s.motions.size) = nk at hcl hlt ⊢
+  have h0 : ClassicInv o s.motions dstate
+      ({ par := nmotion, inc := o.motionCost nm.state dstate, cost := o.combine nm.cost (o.motionCost nm.state dstate),
+         valid := [], incs := [], st := s, stale := false } : Classic σ α δ) [] :=
+    ⟨⟨nm, hnm, rfl, rfl⟩, rfl, fun _ k q hq => by simp at hq⟩
+  have hI := foldl_classicStep_inv sp s.motions nmotion dstate ((List.range nk.1.length).zip nk.1) _ [] h0
+  have hF := foldl_classicStep_frame o sp s.motions nmotion dstate ((List.range nk.1.length).zip nk.1)
+    ({ par := nmotion, inc := o.motionCost nm.state dstate, cost := o.combine nm.cost (o.motionCost nm.state dstate),
+       valid := [], incs := [], st := s, stale := false } : Classic σ α δ)
+  generalize List.foldl (classicStep o sp s.motions nmotion dstate)
+    ({ par := nmotion, inc := o.motionCost nm.state dstate, cost := o.combine nm.cost (o.motionCost nm.state dstate),
+       valid := [], incs := [], st := s, stale := false } : Classic σ α δ) ((List.range nk.1.length).zip nk.1) = a at hcl hI hF ⊢
+  simp only [List.nil_append] at hI
+  have hst : a.stale = false := by
+    have : (a.st.staleInc || a.stale) = false := hcl
+    simp only [Bool.or_eq_false_iff] at this
+    exact this.2
+  obtain ⟨pm, hpm, hinc, hcost⟩ := hI.par
+  refine ⟨⟨{ a.st with staleInc := a.st.staleInc || a.stale }, a.par, pm, a.cost, a.inc, nk.2, rfl, rfl, hF.1, hF.2.1, hF.2.2.1, hpm, hinc,
+    hcost⟩, ?_, ?_⟩
+  · intro p hp
+    exact hlt p.2 (List.of_mem_zip hp).2
+  · intro p hp nb0 hnb0
+    exact hI.incs hst p.1 p (zip_range_getElem? nk.1 p hp) nb0 hnb0
+
+/-- `growInsert` meets the specification: always with delayed collision checking; with the classic loop in every pass
+that did not raise `staleInc`. -/
+theorem growInsert_ok {o : Obj σ α} (sp : Space σ δ) (s : St σ α δ) (nmotion : Nat) (nm : Motion σ α) (dstate : σ)
+    (hnm : s.motions[nmotion]? = some nm)
+    (hcl : sp.delayCC = false → (growInsert o sp s nmotion nm dstate).st.staleInc = false) :
+    GrowOK o s dstate (growInsert o sp s nmotion nm dstate) := by
+  unfold growInsert at hcl ⊢
+  split
+  · exact growInsertDelayed_ok sp s nmotion nm dstate hnm
+  · rename_i hd
+    have hd' : sp.delayCC = false := by simpa using hd
+    have := hcl hd'
+    rw [if_neg hd] at this
+    exact growInsertClassic_ok sp s nmotion nm dstate hnm this
 
 /-! ### the planner state: every stage keeps the invariant -/
 
@@ -1098,38 +1331,28 @@ theorem insertMotion_inv {o : Obj σ α} (s1 : St σ α δ) (dstate : σ) (par :
     rfl
 
 theorem grow_inv {o : Obj σ α} (L : Laws o) (sp : Space σ δ) (s : St σ α δ) (nmotion : Nat) (nm : Motion σ α) (dstate : σ)
-    (hT : StInv o s) (hnm : s.motions[nmotion]? = some nm) : StInv o (grow o sp s nmotion nm dstate).1 := by
-  obtain ⟨cands, t, hspec⟩ := growInsert_spec o sp s nmotion nm dstate
-  have hcp := chooseParent_motions sp s.motions nmotion dstate cands s []
-  have hlt := nearestK_lt sp s.motions dstate (sp.kNearest s.motions.size)
-  have hce := fun oi => cache_entry (o := o) sp s.motions dstate (sp.kNearest s.motions.size) nmotion nm hnm oi
-  generalize nearestK sp s.motions dstate (sp.kNearest s.motions.size) = nk at hspec hlt hce
-  generalize chooseParent sp s.motions nmotion dstate cands s [] = cp at hspec hcp
-  obtain ⟨pm, hpm, hinc, hcost⟩ := hce cp.1
-  generalize pickVal cp.1 nk.1 nmotion = par at hspec hpm
-  generalize pickVal cp.1 (nbhIncs o s.motions dstate nk.1) (o.motionCost nm.state dstate) = inc at hspec hinc
-  generalize pickVal cp.1 (nbhCosts o s.motions nk.1 (nbhIncs o s.motions dstate nk.1))
-    (o.combine nm.cost (o.motionCost nm.state dstate)) = cost at hspec hcost
-  have hT1 : StInv o cp.2.2 := ⟨by rw [hcp.1]; exact hT.1, by rw [hcp.2]; exact hT.2⟩
-  have hins := insertMotion_inv (o := o) cp.2.2 dstate par pm cost inc t hT1 (by rw [hcp.1]; exact hpm) hinc
-    (by rw [hinc]; exact hcost)
+    (hT : StInv o s) (hnm : s.motions[nmotion]? = some nm)
+    (hcl : sp.delayCC = false → (growInsert o sp s nmotion nm dstate).st.staleInc = false) :
+    StInv o (grow o sp s nmotion nm dstate).1 := by
+  obtain ⟨⟨s1, par, pm, cost, inc, t, hst, hnew, hm1, hf1, _, hpm, hinc, hcost⟩, hlt, hincs⟩ := growInsert_ok (o := o) sp s nmotion nm dstate hnm hcl
+  have hT1 : StInv o s1 := ⟨by rw [hm1]; exact hT.1, by rw [hf1]; exact hT.2⟩
+  have hins := insertMotion_inv (o := o) s1 dstate par pm cost inc t hT1 (by rw [hm1]; exact hpm) hinc hcost
   unfold grow
   simp only []
-  rw [hspec]
-  simp only []
-  generalize insertMotion cp.2.2 dstate par cost inc t = st0 at hins ⊢
+  generalize growInsert o sp s nmotion nm dstate = g at hst hnew hlt hincs
+  rw [hst, hnew]
+  generalize insertMotion s1 dstate par cost inc t = st0 at hins ⊢
   have hJ0 : RewInv o st0.motions st0 := ⟨hins.1.1, SameStates.refl _, hins.1.2⟩
-  have hfold := foldl_rewireOne_inv L sp cp.2.2.motions.size cp.2.1 (nbhIncs o s.motions dstate nk.1) st0.motions dstate
-    hins.2.1 ((List.range nk.1.length).zip nk.1) (st0, false) hJ0 ?_
+  have hfold := foldl_rewireOne_inv L sp s1.motions.size g.valid g.incs st0.motions dstate
+    hins.2.1 g.nbhP (st0, false) hJ0 ?_
   · exact ⟨hfold.1, hfold.2.2⟩
   · -- the cached reverse costs describe the neighbours
     intro p hp nb0 hnb0
-    have hp2 : p.2 < s.motions.size := hlt p.2 (List.of_mem_zip hp).2
+    have hp2 : p.2 < s.motions.size := hlt p hp
     obtain ⟨m, hm⟩ := get_of_lt hp2
-    obtain ⟨m', hm', hs'⟩ := hins.2.2 p.2 m (by rw [hcp.1]; exact hm)
+    obtain ⟨m', hm', hs'⟩ := hins.2.2 p.2 m (by rw [hm1]; exact hm)
     rw [hnb0] at hm'; cases hm'
-    unfold nbhIncs
-    rw [getD_map_zip_range _ _ _ p hp, hm, hs']
+    rw [hincs p hp m hm, hs']
 
 /-- entry-wise changes that keep state, parent, cost, incCost and children keep the invariant (the `inGoal` flag). -/
 theorem map_treeInv {o : Obj σ α} (ms ms' : Ms σ α) (g : Nat → Motion σ α → Motion σ α)
@@ -1224,32 +1447,125 @@ theorem drawSample_motions (sp : Space σ δ) (s : St σ α δ) :
       · split <;> exact ⟨rfl, rfl⟩
   · split <;> exact ⟨rfl, rfl⟩
 
-theorem iterate_inv {o : Obj σ α} (L : Laws o) (sp : Space σ δ) (s : St σ α δ) (hT : StInv o s) : StInv o (iterate o sp s) := by
-  unfold iterate
-  have h1 := drawSample_motions sp ({ s with iterations := s.iterations + 1, queries := [] } : St σ α δ)
+/-! ### the ghost `staleInc` is only written by the classic choose-parent loop -/
+
+theorem rewireCheck_stale (sp : Space σ δ) (valid : List (Nat × Int)) (i : Nat) (s : St σ α δ) (mot nb : Motion σ α) :
+    (rewireCheck sp valid i s mot nb).2.staleInc = s.staleInc := by
+  unfold rewireCheck
+  split
+  · split
+    · exact (checkMotion_frame _ _ _).2.2.2
+    · rfl
+  · rfl
+
+theorem rewireOne_stale (o : Obj σ α) (sp : Space σ δ) (new : Nat) (valid : List (Nat × Int)) (incs : List α)
+    (acc : St σ α δ × Bool) (p : Nat × Nat) : (rewireOne o sp new valid incs acc p).1.staleInc = acc.1.staleInc := by
+  unfold rewireOne
+  split
+  · rename_i mot nb _ _
+    split
+    · rfl
+    · split
+      · have hc := rewireCheck_stale sp valid p.1 acc.1 mot nb
+        rcases h : rewireCheck sp valid p.1 acc.1 mot nb with ⟨b, s1⟩
+        rw [h] at hc
+        cases b
+        · exact hc
+        · exact hc
+      · rfl
+  · rfl
+
+theorem foldl_rewireOne_stale (o : Obj σ α) (sp : Space σ δ) (new : Nat) (valid : List (Nat × Int)) (incs : List α)
+    (l : List (Nat × Nat)) (acc : St σ α δ × Bool) :
+    (l.foldl (rewireOne o sp new valid incs) acc).1.staleInc = acc.1.staleInc := by
+  induction l generalizing acc with
+  | nil => rfl
+  | cons p rest ih =>
+    simp only [List.foldl_cons]
+    exact (ih _).trans (rewireOne_stale o sp new valid incs acc p)
+
+theorem updateBest_loop_stale (o : Obj σ α) (s : St σ α δ) (gs : List Nat) : (updateBest.loop o s gs).staleInc = s.staleInc := by
+  induction gs generalizing s with
+  | nil => rfl
+  | cons g rest ih =>
+    unfold updateBest.loop
+    split
+    · rename_i gm _
+      split
+      · simp only []
+        split
+        · rfl
+        · exact ih { s with bestGoal := some g, bestCost := gm.cost }
+      · exact ih _
+    · exact ih _
+
+theorem updateBest_stale (o : Obj σ α) (s : St σ α δ) : (updateBest o s).staleInc = s.staleInc := by
+  unfold updateBest
+  split
+  · split <;> rfl
+  · exact updateBest_loop_stale o _ _
+
+theorem finishIter_stale (o : Obj σ α) (sp : Space σ δ) (s : St σ α δ) (new : Nat) (chk : Bool) (dstate : σ) :
+    (finishIter o sp s new chk dstate).staleInc = s.staleInc := by
+  unfold finishIter
+  have h1 : (goalStep sp s new chk dstate).1.staleInc = s.staleInc := by
+    unfold goalStep
+    split <;> rfl
+  have h2 : (bestStep o (goalStep sp s new chk dstate)).staleInc = s.staleInc := by
+    unfold bestStep
+    split
+    · exact (updateBest_stale o _).trans h1
+    · exact h1
+  unfold approxStep
+  split
+  · exact h2
+  · exact h2
+
+/-- the flag after the rewiring loop and the solution bookkeeping is the flag right after the insertion stage. -/
+theorem grow_finish_stale (o : Obj σ α) (sp : Space σ δ) (s : St σ α δ) (nmotion : Nat) (nm : Motion σ α) (dstate : σ) :
+    (finishIter o sp (grow o sp s nmotion nm dstate).1 (grow o sp s nmotion nm dstate).2.1 (grow o sp s nmotion nm dstate).2.2
+      dstate).staleInc = (growInsert o sp s nmotion nm dstate).st.staleInc := by
+  rw [finishIter_stale]
+  unfold grow
   simp only []
+  exact foldl_rewireOne_stale o sp _ _ _ _ _
+
+/-- one loop pass keeps the invariant — with the classic choose-parent loop (`delayCC_ = false`) provided the pass did not
+raise the ghost `staleInc` (the new motion's `incCost` cached for `nmotion` after a better parent had replaced it). -/
+theorem iterate_inv {o : Obj σ α} (L : Laws o) (sp : Space σ δ) (s : St σ α δ) (hT : StInv o s)
+    (hcl : sp.delayCC = false → (iterate o sp s).staleInc = false) : StInv o (iterate o sp s) := by
+  unfold iterate at hcl ⊢
+  have h1 := drawSample_motions sp ({ s with iterations := s.iterations + 1, queries := [] } : St σ α δ)
+  simp only [] at hcl ⊢
   split
   · rename_i s1 hd
     rw [hd] at h1
     exact ⟨by rw [h1.1]; exact hT.1, by rw [h1.2]; exact hT.2⟩
   · rename_i rstate s1 hd
-    rw [hd] at h1
+    rw [hd] at h1 hcl
+    simp only [] at hcl
     have hs1 : StInv o s1 := ⟨by rw [h1.1]; exact hT.1, by rw [h1.2]; exact hT.2⟩
     split
     · exact hs1
     · rename_i nmotion hn
+      rw [hn] at hcl
+      simp only [] at hcl
       split
       · exact hs1
       · rename_i nm hnm
+        rw [hnm] at hcl
+        simp only [] at hcl
         have h2 := checkMotion_motions s1 nm.state (steerTo sp nm rstate)
         split
         · rename_i s2 hc
           rw [hc] at h2
           exact ⟨by rw [h2.1]; exact hs1.1, by rw [h2.2]; exact hs1.2⟩
         · rename_i s2 hc
-          rw [hc] at h2
+          rw [hc] at h2 hcl
+          simp only [] at hcl
           have hs2 : StInv o s2 := ⟨by rw [h2.1]; exact hs1.1, by rw [h2.2]; exact hs1.2⟩
-          exact finishIter_inv sp _ _ _ _ (grow_inv L sp s2 nmotion nm (steerTo sp nm rstate) hs2 (by rw [h2.1]; exact hnm))
+          exact finishIter_inv sp _ _ _ _ (grow_inv L sp s2 nmotion nm (steerTo sp nm rstate) hs2 (by rw [h2.1]; exact hnm)
+            (fun hd => by rw [← grow_finish_stale]; exact hcl hd))
 
 /-- `addStart`: a new root. -/
 theorem addStart_inv {o : Obj σ α} (s : St σ α δ) (x : σ) (hT : StInv o s) : StInv o (s.addStart o x) := by
@@ -1338,19 +1654,45 @@ theorem init_inv (o : Obj σ α) (sp : Space σ δ) : StInv o (St.init o sp : St
   · intro i m hm; simp [St.init] at hm
   · intro i m p pm hm; simp [St.init] at hm
 
-theorem applyOp_inv {o : Obj σ α} (L : Laws o) (sp : Space σ δ) (s : St σ α δ) (op : Op σ δ) (hT : StInv o s) :
+theorem applyOp_inv {o : Obj σ α} (L : Laws o) (sp : Space σ δ) (s : St σ α δ) (op : Op σ δ) (hT : StInv o s)
+    (hcl : sp.delayCC = false → (applyOp o sp s op).staleInc = false) :
     StInv o (applyOp o sp s op) := by
   cases op with
   | start x => exact addStart_inv s x hT
   | feed us xs as => exact hT
   | beginSolve => exact hT
-  | iter => exact iterate_inv L sp s hT
+  | iter => exact iterate_inv L sp s hT hcl
 
-theorem run_inv {o : Obj σ α} (L : Laws o) (sp : Space σ δ) (s : St σ α δ) (ops : List (Op σ δ)) (hT : StInv o s) :
-    StInv o (run o sp s ops) := by
+/-- a history is CLEAN when the classic choose-parent loop (if it is switched on at all) never raised the ghost
+`staleInc` along it.  With the default `delayCC_ = true` every history is clean (`clean_of_delayCC`). -/
+def Clean (o : Obj σ α) (sp : Space σ δ) (s : St σ α δ) (ops : List (Op σ δ)) : Prop :=
+  sp.delayCC = false → ∀ k : Nat, (run o sp s (ops.take k)).staleInc = false
+
+theorem clean_of_delayCC (o : Obj σ α) (sp : Space σ δ) (s : St σ α δ) (ops : List (Op σ δ)) (h : sp.delayCC = true) :
+    Clean o sp s ops := fun hd => by rw [h] at hd; cases hd
+
+theorem Clean.tail {o : Obj σ α} {sp : Space σ δ} {s : St σ α δ} {op : Op σ δ} {rest : List (Op σ δ)}
+    (h : Clean o sp s (op :: rest)) : Clean o sp (applyOp o sp s op) rest := fun hd k => by
+  have := h hd (k + 1)
+  simpa [run, List.take] using this
+
+theorem Clean.head {o : Obj σ α} {sp : Space σ δ} {s : St σ α δ} {op : Op σ δ} {rest : List (Op σ δ)}
+    (h : Clean o sp s (op :: rest)) : sp.delayCC = false → (applyOp o sp s op).staleInc = false := fun hd => by
+  have := h hd 1
+  simpa [run, List.take] using this
+
+theorem Clean.prefix {o : Obj σ α} {sp : Space σ δ} {s : St σ α δ} {ops₁ ops₂ : List (Op σ δ)}
+    (h : Clean o sp s (ops₁ ++ ops₂)) : Clean o sp s ops₁ := fun hd k => by
+  have := h hd (min k ops₁.length)
+  rw [List.take_append_of_le_length (Nat.min_le_right _ _)] at this
+  rw [← List.take_take] at this
+  simpa using this
+
+theorem run_inv {o : Obj σ α} (L : Laws o) (sp : Space σ δ) (s : St σ α δ) (ops : List (Op σ δ)) (hT : StInv o s)
+    (hc : Clean o sp s ops) : StInv o (run o sp s ops) := by
   induction ops generalizing s with
   | nil => exact hT
-  | cons op rest ih => exact ih _ (applyOp_inv L sp s op hT)
+  | cons op rest ih => exact ih _ (applyOp_inv L sp s op hT hc.head) hc.tail
 
 /-! ### consequences -/
 
